@@ -7,7 +7,7 @@ import os
 import sys
 import traceback
 
-from .core import Ctx, HarnessError, part_a
+from .core import Ctx, HarnessError, part_a, translator_tie
 
 
 def main(argv=None) -> int:
@@ -34,6 +34,7 @@ def main(argv=None) -> int:
             ctx.violation(f"the correspondence run of {args.pid} aborted ({type(e).__name__}: {str(e)[:200]})",
                           {"broken": f"harness/props/{args.pid.lower()}.py run()", "traceback": traceback.format_exc()[-3000:]},
                           {"part": "B", "broken": "harness run aborted"}, found_input=False)
+        translator_tie(ctx)
         return ctx.finish()
     except HarnessError as e:
         print(f"HARNESS-ERROR {args.pid}: {e}", file=sys.stderr)
